@@ -28,9 +28,42 @@ use crate::{
 
 use std::{
     fs::File,
-    os::unix::io::AsFd,
+    os::unix::io::{AsFd, OwnedFd},
     path::{Path, PathBuf},
 };
+
+/// Maximum number of times an `openat2(2)` call is retried when it fails with
+/// `EAGAIN`.
+const MAX_OPENAT2_RETRIES: usize = 16;
+
+/// Wrapper for [`syscalls::openat2`] which handles `EAGAIN`.
+///
+/// The kernel aborts any scoped (`RESOLVE_IN_ROOT` / `RESOLVE_BENEATH`) lookup
+/// with `EAGAIN` if a rename or mount happened anywhere on the system while it
+/// was walking through "..". That is not an error the caller can act on, so it
+/// is retried a bounded number of times and then reported as a safety
+/// violation (somebody is racing against us).
+pub(crate) fn openat2_retry<Fd: AsFd, P: AsRef<Path>>(
+    dirfd: Fd,
+    path: P,
+    how: &OpenHow,
+    operation: &'static str,
+) -> Result<OwnedFd, Error> {
+    let (dirfd, path) = (dirfd.as_fd(), path.as_ref());
+    for _ in 0..MAX_OPENAT2_RETRIES {
+        match syscalls::openat2(dirfd, path, how) {
+            Ok(fd) => return Ok(fd),
+            Err(err) if err.root_cause().raw_os_error() == Some(libc::EAGAIN) => continue,
+            Err(err) => Err(ErrorImpl::RawOsError {
+                operation: operation.into(),
+                source: err,
+            })?,
+        }
+    }
+    Err(ErrorImpl::SafetyViolation {
+        description: "racing filesystem changes caused openat2 to abort".into(),
+    })?
+}
 
 /// Open `path` within `root` through `openat(2)`.
 ///
@@ -54,15 +87,7 @@ pub(crate) fn open<Fd: AsFd, P: AsRef<Path>>(
         ..Default::default()
     };
 
-    syscalls::openat2(&root, path.as_ref(), &how)
-        .map(File::from)
-        .map_err(|err| {
-            ErrorImpl::RawOsError {
-                operation: "openat2 one-shot open".into(),
-                source: err,
-            }
-            .into()
-        })
+    openat2_retry(&root, path.as_ref(), &how, "openat2 one-shot open").map(File::from)
 }
 
 /// Resolve `path` within `root` through `openat2(2)`.
